@@ -1,18 +1,17 @@
 use smartcore::linalg::naive::dense_matrix::DenseMatrix;
-use smartcore::linalg::evd::EVDDecomposableMatrix;
-use smartcore::linalg::BaseMatrix;
+use smartcore::linear::lasso::*;
 fn main(){
     let r: serde_json::Value = serde_json::from_str(&std::fs::read_to_string(std::env::args().nth(1).unwrap()).unwrap()).unwrap();
-    let a=&r["case"]["A"]; let n=a["rows"].as_u64().unwrap() as usize;
-    let d:Vec<f64>=a["row_major"].as_array().unwrap().iter().map(|x|x.as_f64().unwrap()).collect();
-    let a64=DenseMatrix::from_array(n,n,&d);
-    let e=a64.evd(false).unwrap();
-    let an=d.iter().map(|x|x*x).sum::<f64>().sqrt();
-    for j in 0..n {
-        let v=e.V.get_col_as_vec(j);
-        let nv=v.iter().map(|x|x*x).sum::<f64>().sqrt();
-        let mut r2=0.0; for i in 0..n { let mut s=0.0; for k in 0..n { s+=d[i*n+k]*v[k]; } s-=e.d[j]*v[i]; r2+=s*s; }
-        println!("j={} d={:.12e} e={:.3e} |v|={:.3e} rel-res={:.3e}", j, e.d[j], e.e[j], nv, r2.sqrt()/(an*nv));
+    let c=&r["case"];
+    let x=&c["X"]; let n=x["rows"].as_u64().unwrap() as usize; let p=x["cols"].as_u64().unwrap() as usize;
+    let d:Vec<f64>=x["row_major"].as_array().unwrap().iter().map(|v|v.as_f64().unwrap()).collect();
+    let y:Vec<f64>=c["y"].as_array().unwrap().iter().map(|v|v.as_f64().unwrap()).collect();
+    let xm=DenseMatrix::from_array(n,p,&d);
+    let alpha=c["alpha"].as_f64().unwrap(); let tol=c["tol"].as_f64().unwrap(); let norm=c["normalize"].as_bool().unwrap();
+    println!("n={} p={} alpha={} tol={} normalize={}", n,p,alpha,tol,norm);
+    for mi in [10usize, 100, 1000, 5000] {
+        smartcore::verif::set_step_budget(u64::MAX);
+        let m=Lasso::fit(&xm,&y,LassoParameters{alpha,normalize:norm,tol,max_iter:mi});
+        println!("max_iter={} steps={} ok={} coef={:?}", mi, smartcore::verif::steps(), m.is_ok(), m.as_ref().ok().map(|m| format!("{:?}", m.coefficients())));
     }
-    for i in 0..n { println!("{}", (0..n).map(|k| format!("{:8.3}", d[i*n+k])).collect::<Vec<_>>().join(" ")); }
 }
